@@ -44,6 +44,9 @@ def make(spec, gen):
         return spec["value"]
     shape = spec["shape"]
     base = (torch.randn(shape, generator=gen) * spec.get("mag", 1.0)).to(dtype)
+    if spec.get("rowshift"):
+        # every other row (along the first dimension) sits far below the tensor maximum
+        base[1::2] = base[1::2] - spec["rowshift"]
     if spec.get("saturate"):
         base.view(-1)[0] = base.abs().max() * 4
     if spec.get("zeros"):
@@ -82,8 +85,17 @@ def _clone_then_overwrite(x, z):
     return y
 
 
+def _copy_q(dst, src):
+    d = dst.clone()
+    d.copy_(src)
+    return d
+
+
 OPS = {
     # name: (class, function on (args...))
+    # in-place copy between two quantized tensors (possibly quantized along different axes): the destination then holds the
+    # source's values, and what it reports (axis, scale shape) matches what it holds
+    "copy_q": ("copy", lambda dst, src: _copy_q(dst, src)),
     "view_flat": ("move", lambda x: x.view(-1)),
     "reshape": ("move", lambda x, sh: x.reshape(sh)),
     "transpose01": ("move", lambda x: x.transpose(0, 1)),
@@ -137,6 +149,10 @@ OPS = {
     "gelu": ("passthrough", lambda x: Fn.gelu(x)),
     "layer_norm": ("passthrough", lambda x: Fn.layer_norm(x, x.shape[-1:])),
     "topk": ("passthrough", lambda x: torch.topk(x, 2)[0]),
+    "topk_kw": ("passthrough", lambda x: torch.topk(input=x, k=2)[0]),                      # the quantized tensor passed BY KEYWORD
+    "cosine_kw": ("passthrough", lambda x, y: Fn.cosine_similarity(x1=x, x2=y, dim=-1)),
+    "log_softmax_kw": ("passthrough", lambda x: Fn.log_softmax(input=x, dim=-1)),
+    "softmax_masked": ("requant", lambda x: torch.softmax(x + torch.triu(torch.full((x.shape[-1], x.shape[-1]), -1e4, dtype=x.dtype), 1)[: x.shape[-2]] if x.ndim >= 2 else x, dim=-1)),
     "log_softmax": ("passthrough", lambda x: Fn.log_softmax(x, dim=-1)),
     "cosine": ("passthrough", lambda x, y: Fn.cosine_similarity(x, y, dim=-1)),
     "mm": ("contraction", lambda x, y: torch.mm(x, y)),
